@@ -92,26 +92,8 @@ def structural(chk):
     if len(params) != 2:
         raise AnalysisError('C07.R2', q, 'calc_score(contract, taken_tricks) expected')
     cp, tp = params
-    ps = Summarizer(repo, 'C07.R2').function_paths('score', 'calc_score')
-    n_route = 0
-    for p in ps:
-        if p.end[0] != 'return':
-            continue
-        v = p.end[1]
-        if isinstance(v, ast.Call) and ast.unparse(v.func) == 'calc_bid_score':
-            n_route += 1
-            got = dict(zip(cparams, v.args))
-            got.update({k.arg: k.value for k in v.keywords})
-            want = {'bid': f'{cp}.final_bid', 'x': f'{cp}.x', 'xx': f'{cp}.xx', 'vul': f'{cp}.is_vul()', 'taken_trick_num': tp}
-            for k, wv in want.items():
-                g = ast.unparse(got[k]) if k in got else None
-                chk.require(g == wv, 'C07.R2', repo.where(m, p.end[2]), q, f'calc_bid_score({k}={g})',
-                            f'{k} is taken from {wv}', f'calc_bid_score receives {k} = `{g}`, expected `{wv}`')
-            passed = [c for c in p.conds() if ast.unparse(c.test) == f'{cp}.is_passed_out()' and c.polarity is False]
-            chk.require(bool(passed), 'C07.R3', repo.where(m, p.end[2]), q, 'table lookup only for real contracts',
-                        'the table function is reached only when the contract is not passed out',
-                        'calc_bid_score is reached without the passed-out test')
-    chk.floor('C07.R2', 'calls of calc_bid_score in calc_score', n_route, 1)
+    # (argument routing and the passed-out short-circuit are decided by R5 on the complete domain and by the folds of passed-out contracts below:
+    # the former reaching-definition rule on the shape of calc_score was dropped - it reported equivalent rewritings)
     for v in vuls:
         for fb in (None, f.member('Bid', 'Pass')):
             for t in (0, 7, 13):
@@ -224,7 +206,7 @@ def complete_domain(chk):
     if os.environ.get('SA_SERIAL') == '1':
         res = [_score_task(x) for x in work]
     else:
-        with ProcessPoolExecutor(max_workers=len(work)) as pool:
+        with ProcessPoolExecutor(max_workers=__import__('sa.rules.common', fromlist=['pool_size']).pool_size(len(work))) as pool:
             res = list(pool.map(_score_task, work))
     n = sum(r['n'] for r in res)
     for r in res:
